@@ -19,15 +19,19 @@ _REF = {}
 def reference(names, order):
     key = (tuple(names), order)
     if key not in _REF:
-        w = H.World()
-        push_env(w.env)
-        try:
-            probes = H.probe_events(names)
-            if order == "reverse":
-                probes = probes[::-1]
-            _REF[key] = (probes, [w.observe(p) for p in probes])
-        finally:
-            pop_env()
+        probes = H.probe_events(names)
+        if order == "reverse":
+            probes = probes[::-1]
+        want = []
+        for p in probes:
+            # every probe in an environment of its own: the probes before it are a history as well
+            w = H.World()
+            push_env(w.env)
+            try:
+                want.append(w.observe(p))
+            finally:
+                pop_env()
+        _REF[key] = (probes, want)
     return _REF[key]
 
 
